@@ -366,7 +366,7 @@ func ruleR15b(c *Ctx, rule string) {
 		guarded := false
 		pr := &PathRule{
 			Edge: func(pc *PathCtx, s uint64, from *ssa.BasicBlock, si int) (uint64, bool) {
-				for _, f := range edgeFacts(from, si) {
+				for _, f := range pc.edgeFacts(from, si) {
 					if call, ok := f.X.(*ssa.Call); ok && calleeFullName(call) == "(*sync/atomic.Int64).Add" {
 						if n, ok := constInt(call.Call.Args[1]); ok && n == -1 {
 							if z, ok := constInt(f.Y); ok && z == 0 {
@@ -551,7 +551,7 @@ func ruleR15cd(c *Ctx) {
 				return s
 			},
 			Edge: func(pc *PathCtx, s uint64, from *ssa.BasicBlock, si int) (uint64, bool) {
-				for _, f := range edgeFacts(from, si) {
+				for _, f := range pc.edgeFacts(from, si) {
 					e, ok := f.X.(*ssa.Extract)
 					if !ok || e.Index != 0 {
 						continue
